@@ -251,6 +251,43 @@ def runtime_checks():
                                     violated='value at the constrained point differs from the prescribed value'))
             except Exception as e:
                 bad.append(dict(case=name, network_output_scale=scale, error=f'{type(e).__name__}: {e}'))
+    # the last output unit selected as -1 (Python indexing) on a shared 3-output network: one column, the constrained value at the point
+    net3 = FCNN(1, 3, hidden_units=(5,))
+    for cname, mk, pt, want in (('IVP', lambda: IVP(0.3, 1.7), 0.3, 1.7), ('DirichletBVP', lambda: DirichletBVP(0.2, 1.1, 1.9, -0.6), 1.9, -0.6),
+                                ('DoubleEndedBVP1D DD', lambda: DoubleEndedBVP1D(0.2, 1.9, x_min_val=1.1, x_max_val=-0.6), 0.2, 1.1)):
+        a, b = mk(), mk()
+        a.ith_unit, b.ith_unit = -1, 2
+        try:
+            ua, ub = a.enforce(net3, full(pt)), b.enforce(net3, full(pt))
+            if tuple(ua.shape) != (n, 1) or not torch.equal(ua, ub) or float((ua.detach() - want).abs().max()) > 1e-6:
+                bad.append(dict(case='output unit -1 of a shared 3-output network', condition=cname, shape=list(ua.shape), violated='does not constrain the last '
+                                'output unit (one column with the prescribed value at the constrained point)'))
+        except Exception as e:
+            bad.append(dict(case='output unit -1 of a shared 3-output network', condition=cname, error=f'{type(e).__name__}: {e}'))
+    # weights replaced wholesale (vector_to_parameters / assigning .data: restarts, re-initialisation) between two uses of one condition:
+    # the Neumann ends are built from the network AS IT IS at the call
+    from neurodiffeq.neurodiffeq import diff as _diff
+    for mode, kw in (('DN', dict(x_min_val=1.1, x_max_prime=-0.6)), ('ND', dict(x_min_prime=0.4, x_max_val=0.9)), ('NN', dict(x_min_prime=0.4, x_max_prime=-0.6))):
+        try:
+            cond = DoubleEndedBVP1D(0.2, 1.9, **kw)
+            netw = FCNN(1, 1, hidden_units=(6,))
+            # (called without the hostile environment, whose own in-place weight changes would announce themselves to any version-based cache)
+            raw_enforce = getattr(DoubleEndedBVP1D.enforce, '__wrapped__', DoubleEndedBVP1D.enforce)
+            raw_enforce(cond, netw, full(0.7))
+            with torch.no_grad():
+                vec = torch.nn.utils.parameters_to_vector(netw.parameters())
+                torch.nn.utils.vector_to_parameters(torch.randn_like(vec), netw.parameters())
+            for p_ in netw.parameters():
+                p_.data = p_.data * 1.5 + 0.1
+            for end, pt, key in (('left', 0.2, 'x_min_prime'), ('right', 1.9, 'x_max_prime')):
+                if key in kw:
+                    xx = full(pt)
+                    du = _diff(raw_enforce(cond, netw, xx), xx).detach()
+                    if float((du - kw[key]).abs().max()) > 1e-5:
+                        bad.append(dict(case=f'DoubleEndedBVP1D {mode}: weights replaced through .data / vector_to_parameters between two calls', end=end,
+                                        violated='derivative at the Neumann end differs from the prescribed one', got=du.reshape(-1).tolist(), want=kw[key]))
+        except Exception as e:
+            bad.append(dict(case=f'DoubleEndedBVP1D {mode}: weights replaced between two calls', error=f'{type(e).__name__}: {e}'))
     # intervals far from the origin compared with their length (a late time window, time stamps), end points representable in the working
     # precision: the normalised coordinate is exactly 0 and 1 at the ends, so the end values are reproduced to rounding in either precision
     import random
